@@ -20,6 +20,12 @@ def applyReduction (op : String) (flags : List Nat) (img : Img) : Option String 
   | "dropalpha", [a] => some (showRes (reducedAlphaChannel img (a = 1)))
   | "condense", [a] => some (showRes (reducedPalette img (a = 1)))
   | "sortluma", [] => some (showRes (sortedPalette img))
+  | "reorder", remapping => some (match applyPaletteReorder img remapping with
+      | none => "panic"
+      | some r => showRes r)
+  | "popular", remapping => some (match applyMostPopularColor img.data remapping with
+      | none => "panic"
+      | some r => "ok " ++ " ".intercalate (r.map toString))
   | _, _ => none
 
 def handleReduce (args : List String) : Option String :=
